@@ -40,6 +40,8 @@ NLogL(a)    == <<a>>           \* val(a) > 0
 NSqrtL(a)   == <<a>>           \* val(a) >= 0
 NPowL(a, b) == <<a, b>>        \* val(a)^val(b); integer b for any a, otherwise val(a) > 0
 NAbsL(a)    == <<a>>
+NAbs(a)     == <<a>>           \* |val(a)| with the magnitude of a kept
+NAsinL(a)   == <<a>>           \* |val(a)| < 1
 NLeaf(a)    == <<a>>           \* val(a) with mag reset to |val(a)|
 \* the value f0 = f(a) whose derivative at a is f1: val = val(f0), mag = |val(f0)| + |val(f1)| * mag(a)
 NFun(f0, f1, a) == <<f0, f1, a>>
@@ -50,6 +52,8 @@ NSign(a)  == 0                 \* -1, 0, 1
 
 \* NClose(got, exp, k, p): |val(got) - val(exp)| <= 2^k * u_p * mag(exp),  u_d = 2^-53, u_ld = 2^-64
 NClose(got, exp, k, p) == TRUE
+\* NCloseTo(a, b, scale, k, p): |val(a) - val(b)| <= 2^k * u_p * mag(scale)
+NCloseTo(a, b, scale, k, p) == TRUE
 \* ceil(log2(|val(got) - val(exp)| / (u_p * mag(exp)))); -99 when the values are equal
 NErrBits(got, exp, p) == 0
 NToStr(a) == "?"
